@@ -28,11 +28,12 @@
    [Err]; the correspondence checks exactly that on every such case. *)
 From Coq Require Import Lia.
 (* source tie by translation: the lemmas of these files are obligations of this property *)
-From Soy Require Import Proofs.SourceTieData Proofs.SourceTieHtml.
+From Soy Require Import Proofs.SourceTieData Proofs.SourceTieHtml Proofs.SourceTieScope Proofs.SourceTieRegistry Proofs.SourceTieDirectives.
 From Soy Require Import Model.Bytes Model.Num Model.Values Model.Outcome Model.Ast
   Model.Escape Model.Directives Model.Print Generated.Tables Model.Interp Model.InterpSafety Model.Globals
-  Model.Compile Spec.Safety
-  Proofs.SafetyPure Proofs.SafetyProofs Proofs.SafetyEntry Proofs.SafetyFuel Proofs.SafetyCompile Proofs.SafetyMono.
+  Model.Compile Model.ExprPipeline Model.InterpJson Spec.Safety
+  Proofs.SafetyPure Proofs.SafetyProofs Proofs.SafetyEntry Proofs.SafetyFuel Proofs.SafetyCompile Proofs.SafetyMono
+  Proofs.SafetyDepth Proofs.SafetyBytes Proofs.SafetyUser Proofs.SafetyExt Proofs.SafetyRefine.
 Open Scope N_scope.
 
 (* ================================================================== *)
@@ -105,11 +106,73 @@ Theorem C06_walk_fuel_monotone :
 Proof. exact walk_fuel_monotone. Qed.
 Print Assumptions C06_walk_fuel_monotone.
 
-(* FULL STATEMENT for recursive bundles (not proved): for every run there is a number d -- the call depth
-   the run reaches, a function of the data -- such that fuel >= reg_height * (d + 1) excludes OutOfFuel.
-   Proved instead: the acyclic case above, where d is bounded by the rank; recursion on data stays
-   [OutOfFuel]-or-answer for every fuel by C06_render_no_escape, and is exercised by the harness
-   (tree walks and count-downs to depth 150). *)
+(* RECURSIVE bundles: the quantitative bound.  "The call depth a run reaches" is stated with the capped
+   walker of Model/InterpSafety.v section 4 ([walk_cap cf d]: the walker that answers [Err e_capped] instead
+   of walking a node at call depth above d): [run_depth_le cf d n st] (Spec/Safety.v) says that under some
+   budget the d-capped walker finishes with an answer that is neither "budget exhausted" nor "cap hit".
+   Then EVERY fuel >= (tallest template) x (d + 1) gives a result, an error value or a value outside the
+   float model -- whatever the call graph -- and the whole render result is the same for all such fuels. *)
+Theorem C06_render_total_depth :
+  forall cf d fuel name data_id data calls_left bytes_left first_id t,
+    reg_ok (c_reg cf) = true ->
+    find_template (r_templates (c_reg cf)) name = Some t ->
+    run_depth_le cf d (t_node t)
+      (init_state (sc_enter (new_scope data_id data)) (entry_mode (t_ns_autoescape t)) name calls_left bytes_left first_id) ->
+    (reg_height (c_reg cf) * S d <= fuel)%nat ->
+    match rr_outcome (render cf fuel name data_id data calls_left bytes_left first_id) with
+    | Ok _ | Err _ | OutOfModel => True
+    | _ => False
+    end
+    /\ forall fuel', (reg_height (c_reg cf) * S d <= fuel')%nat ->
+         render cf fuel' name data_id data calls_left bytes_left first_id
+         = render cf fuel name data_id data calls_left bytes_left first_id.
+Proof. exact render_total_depth. Qed.
+Print Assumptions C06_render_total_depth.
+
+(* the walker itself, from call depth 0 on any tree no taller than the tallest template *)
+Theorem C06_walk_fuel_depth :
+  forall cf d n st fuel,
+    run_depth_le cf d n st ->
+    depth_ st = 0%nat -> (tree_height n <= reg_height (c_reg cf))%nat ->
+    (reg_height (c_reg cf) * S d <= fuel)%nat ->
+    nf (fst (walk cf fuel n st)) /\
+    forall fuel', (reg_height (c_reg cf) * S d <= fuel')%nat -> walk cf fuel' n st = walk cf fuel n st.
+Proof. exact walk_fuel_depth. Qed.
+Print Assumptions C06_walk_fuel_depth.
+
+(* every run that answers has such a d: a run with fuel f cannot nest more than f calls, so started at call
+   depth 0 the walker capped at f is the walker.  ([e_capped] is the instrument's own marker: the hypothesis
+   excludes a run of the plain walker that ends in an error with exactly that text.) *)
+Theorem C06_answer_has_depth :
+  forall cf f n st, depth_ st = 0%nat -> is_answer (fst (walk cf f n st)) -> run_depth_le cf f n st.
+Proof. exact walk_answer_has_depth. Qed.
+Print Assumptions C06_answer_has_depth.
+
+(* the three facts behind it.  (a) the budget pays for every run that stays within d nested calls:
+   started at call depth k <= d with tree_height n + reg_height * (d - k) fuel, the capped walker ends at
+   call depth k and never in a crash, a divergence or fuel exhaustion *)
+Theorem C06_walk_cap_fuel :
+  forall cf d fuel n k st r st',
+    (k <= d)%nat -> (tree_height n + reg_height (c_reg cf) * (d - k) <= fuel)%nat ->
+    depth_ st = k -> walk_cap cf d fuel n st = (r, st') ->
+    depth_ st' = k /\ nf r.
+Proof. exact walk_cap_fuel_nf. Qed.
+Print Assumptions C06_walk_cap_fuel.
+
+(* (b) the capped walker reports the cap or IS the walker: same outcome, same final state *)
+Theorem C06_walk_cap_is_walk :
+  forall cf d f n st, fst (walk_cap cf d f n st) = Err e_capped \/ walk_cap cf d f n st = walk cf f n st.
+Proof. exact walk_cap_approx. Qed.
+Print Assumptions C06_walk_cap_is_walk.
+
+(* (c) an answer of the capped walker does not depend on the budget or the cap that produced it, so
+   [run_depth_le] is a property of the run, upward closed in d *)
+Theorem C06_walk_cap_monotone :
+  forall cf d d' f f' n st,
+    (d <= d')%nat -> (f <= f')%nat -> is_answer (fst (walk_cap cf d f n st)) ->
+    walk_cap cf d' f' n st = walk_cap cf d f n st.
+Proof. exact walk_cap_monotone. Qed.
+Print Assumptions C06_walk_cap_monotone.
 
 (* ================================================================== *)
 (* errRecover                                                          *)
@@ -190,6 +253,46 @@ Theorem C06_parse_globals_no_escape :
 Proof. exact parse_globals_no_escape_lemma. Qed.
 Print Assumptions C06_parse_globals_no_escape.
 
+(* ---- the same two entry points as functions of BYTE STRINGS: scanner model (lexExpr, Model/Lexer.v),
+   expression parser model (parse.Expr, Model/Parser.v + Model/ExprParser.v) and the evaluator with the nil
+   template, composed (Model/ExprPipeline.v).  No hypothesis about a parser is left. ---- *)
+
+(* parse.Expr on ANY bytes: a tree, an error, or a float literal outside the parser model's float domain *)
+Theorem C06_parse_expr_bytes_total :
+  forall s : bstr, match parse_expr_bytes s with Ok _ | Err _ | OutOfModel => True | _ => False end.
+Proof. exact parse_expr_bytes_total. Qed.
+Print Assumptions C06_parse_expr_bytes_total.
+
+(* EvalExpr on what parse.Expr makes of ANY bytes *)
+Theorem C06_eval_expr_bytes_no_escape : forall fuel (s : bstr), no_escape (eval_expr_bytes fuel s).
+Proof. exact eval_expr_bytes_no_escape. Qed.
+Print Assumptions C06_eval_expr_bytes_no_escape.
+
+(* ParseGlobals on ANY input bytes *)
+Theorem C06_parse_globals_bytes_no_escape : forall fuel (input : bstr), no_escape (parse_globals_bytes fuel input).
+Proof. exact parse_globals_bytes_no_escape. Qed.
+Print Assumptions C06_parse_globals_bytes_no_escape.
+
+(* budgets: EvalExpr runs without a registry, so no callee is ever entered and the height of the tree is
+   enough fuel for ANY tree; with it the three entry points answer -- a value, an error value, or a value
+   outside the float model -- on every tree / every byte string *)
+Theorem C06_eval_expr_total :
+  forall fuel n, (tree_height n <= fuel)%nat ->
+    match eval_expr_impl true fuel n with Ok _ | Err _ | OutOfModel => True | _ => False end.
+Proof. exact eval_expr_impl_total. Qed.
+Print Assumptions C06_eval_expr_total.
+
+Theorem C06_eval_expr_text_total :
+  forall s : bstr, match eval_expr_text s with Ok _ | Err _ | OutOfModel => True | _ => False end.
+Proof. exact eval_expr_text_total. Qed.
+Print Assumptions C06_eval_expr_text_total.
+
+Theorem C06_parse_globals_bytes_total :
+  forall fuel (input : bstr), (globals_fuel input <= fuel)%nat ->
+    match parse_globals_bytes fuel input with Ok _ | Err _ | OutOfModel => True | _ => False end.
+Proof. exact parse_globals_bytes_total. Qed.
+Print Assumptions C06_parse_globals_bytes_total.
+
 (* what Bundle.Compile's loop over Registry.Add builds is well-formed, given that the parser numbers
    the nodes of each template inside the file's text *)
 Theorem C06_compiled_reg_ok :
@@ -202,6 +305,124 @@ Print Assumptions C06_compiled_reg_ok.
 Theorem C06_registry_add_never_panics : forall r f, registry_add r f <> inl AEIndexCrash.
 Proof. exact registry_add_never_panics. Qed.
 Print Assumptions C06_registry_add_never_panics.
+
+(* ================================================================== *)
+(* Functions and directives supplied by the user                       *)
+(* ================================================================== *)
+
+(* Model/InterpSafety.v section 5: the user's Go code is a parameter that returns a value (possibly nil),
+   panics, or does not return.  What the recover wrappers of evalFunc / evalPrint guarantee: *)
+
+(* returning anything or panicking with anything: a value or an error value *)
+Theorem C06_recover_func_answers : forall r, r <> UNoReturn -> nf (recover_func r).
+Proof. exact recover_func_answers. Qed.
+Print Assumptions C06_recover_func_answers.
+
+Theorem C06_recover_directive_answers : forall r, r <> UNoReturn -> nf (recover_directive r).
+Proof. exact recover_directive_answers. Qed.
+Print Assumptions C06_recover_directive_answers.
+
+(* the walker with ANY user functions (they may shadow builtins) and ANY user directives (a directive
+   receives and returns a VALUE): never a panic out, never a loop of the walker's own, provided each
+   returns or panics on every input *)
+Theorem C06_walk_user_no_escape :
+  forall cf (ufuncs : bstr -> option user_func) (udirs : bstr -> option user_directive),
+    (forall name uf vs, ufuncs name = Some uf -> uf_apply uf vs <> UNoReturn) ->
+    (forall name ud v args, udirs name = Some ud -> ud_apply ud v args <> UNoReturn) ->
+    forall fuel n st, no_escape (fst (walk_user cf ufuncs udirs fuel n st)).
+Proof. exact walk_user_no_escape'. Qed.
+Print Assumptions C06_walk_user_no_escape.
+
+(* Renderer.Execute with them, incl. the code inside errRecover (positions stay inside the source) *)
+Theorem C06_render_user_no_escape :
+  forall cf (ufuncs : bstr -> option user_func) (udirs : bstr -> option user_directive)
+         fuel name data_id data calls_left bytes_left first_id,
+    (forall name uf vs, ufuncs name = Some uf -> uf_apply uf vs <> UNoReturn) ->
+    (forall name ud v args, udirs name = Some ud -> ud_apply ud v args <> UNoReturn) ->
+    reg_ok (c_reg cf) = true ->
+    no_escape (rr_outcome (render_hook cf (funcs_with_user ufuncs) (dirs_with_user udirs)
+                             fuel name data_id data calls_left bytes_left first_id)).
+Proof. exact render_user_no_escape'. Qed.
+Print Assumptions C06_render_user_no_escape.
+
+(* the hooked walker satisfies EVERY walker logic of Proofs/InterpLogic.v whose pure-site condition holds
+   of the hooked calls: the other invariants of the walker (C08, C12, ...) extend to user code the same way *)
+Theorem C06_walk_hook_logic :
+  forall cf fhooks dir_table (Phi : forall A : Type, M A -> Prop) (pure_ok : forall A : Type, outcome A -> Prop),
+    InterpLogic.walker_logic Phi pure_ok -> InterpLogic.pure_sites pure_ok ->
+    (forall name h vs, fhooks name = Some h -> pure_ok _ (fh_apply h vs)) ->
+    (forall mode ds v, pure_ok _ (print_writes_hook dir_table mode ds v)) ->
+    forall fuel n, Phi _ (walk_hook cf fhooks dir_table fuel n).
+Proof. exact walk_hook_logic. Qed.
+Print Assumptions C06_walk_hook_logic.
+
+(* the limit: user code that does not return is not turned into an error by any wrapper *)
+Theorem C06_user_noreturn_not_covered : recover_func UNoReturn = Diverge /\ recover_directive UNoReturn = Diverge.
+Proof. exact user_noreturn_not_covered. Qed.
+Print Assumptions C06_user_noreturn_not_covered.
+
+(* ================================================================== *)
+(* The extended model: escapeJsString, json, round with digits         *)
+(* ================================================================== *)
+
+(* Model/InterpJson.v: the three library calls Model/Interp.v answers [OutOfModel] for, as hooked entries:
+   the walker and Renderer.Execute with them never let a panic out and never spin ... *)
+Theorem C06_walk_x_no_escape : forall cf fuel n st, no_escape (fst (walk_xj cf fuel n st)).
+Proof. exact walk_x_no_escape. Qed.
+Print Assumptions C06_walk_x_no_escape.
+
+Theorem C06_render_x_no_escape :
+  forall cf fuel name data_id data calls_left bytes_left first_id,
+    reg_ok (c_reg cf) = true ->
+    no_escape (rr_outcome (render_xj cf fuel name data_id data calls_left bytes_left first_id)).
+Proof. exact render_x_no_escape. Qed.
+Print Assumptions C06_render_x_no_escape.
+
+(* ... and the new entries are INSIDE the model: json of any value without floats is a string, whatever the
+   value's String() does (a list holding undefined prints null); escapeJsString is a string wherever
+   String() is; json / round on floats answer in the float model's domain, NaN and the infinities under
+   json are directiveJson's panic, i.e. an error value *)
+Theorem C06_json_total_float_free :
+  forall v args, float_free v = true -> exists s, dir_json (Some v) args = Ok (Some (VStr s)).
+Proof. exact json_total_float_free. Qed.
+Print Assumptions C06_json_total_float_free.
+
+Theorem C06_escape_js_total :
+  forall v args s, value_string v = Ok s -> dir_escape_js (Some v) args = Ok (Some (VStr (JsEscape.js_escape is_print_tbl s))).
+Proof. exact dir_escape_js_total. Qed.
+Print Assumptions C06_escape_js_total.
+
+(* the extended model is a conservative extension of the shared walker: every successful run of
+   Interp.walk (outcome Ok) is reproduced exactly -- value, final state, Write calls -- by walk_xj, and every
+   successful render by render_xj.  (Where Interp.walk answers OutOfModel the extended model computes; where
+   it answers an error the extended model answers an error too except under |json, which prints values
+   whose String() panics.) *)
+Theorem C06_walk_x_agrees :
+  forall cf f n st v st', walk cf f n st = (Ok v, st') -> walk_xj cf f n st = (Ok v, st').
+Proof. exact walk_x_agrees. Qed.
+Print Assumptions C06_walk_x_agrees.
+
+Theorem C06_render_x_agrees :
+  forall cf fuel name data_id data calls_left bytes_left first_id,
+    rr_outcome (render cf fuel name data_id data calls_left bytes_left first_id) = Ok tt ->
+    render_xj cf fuel name data_id data calls_left bytes_left first_id
+    = render cf fuel name data_id data calls_left bytes_left first_id.
+Proof. exact render_x_agrees. Qed.
+Print Assumptions C06_render_x_agrees.
+
+Example C06_ex_json :
+  dir_json (Some (VList 5 [VInt 1; VUndef; VStr (b "a<b"); VMap 6 [(b "k", VBool true); (b "a", VNull)]])) []
+    = Ok (Some (VStr (b "[1,null,""a\u003cb"",{""a"":null,""k"":true}]")))
+  /\ is_err (dir_json (Some (VFloat FNaN)) []) = true
+  /\ dir_json (Some (VFloat (FFin 3 (-1)))) [] = Ok (Some (VStr (b "1.5")))
+  /\ dir_json (Some (VList 0 [])) [] = Ok (Some (VStr (b "null")))
+  /\ dir_json None [] = Ok (Some (VStr (b "null"))).
+Proof. vm_compute. repeat split; reflexivity. Qed.
+Example C06_ex_round_digits :
+  round_x [VFloat (FFin 5 (-1)); VInt 1] = Ok (VFloat (FFin 5 (-1)))           (* round(2.5, 1) = 2.5 *)
+  /\ round_x [VFloat (FFin 5 (-2)); VInt 1] = OutOfModel                        (* round(1.25, 1) = 1.3 *)
+  /\ round_x [VFloat (FFin 5 (-1))] = Ok (VInt 3).
+Proof. vm_compute. repeat split; reflexivity. Qed.
 
 (* ================================================================== *)
 (* Non-vacuity                                                         *)
@@ -257,6 +478,47 @@ Example C06_ex_same_file_name :
   let r := render {| c_reg := same_reg; c_ij := None; c_oblig := []; c_msgs := None |} 100 (b "l.t") 2 [] None None 10 in
   is_err (rr_outcome r) = true /\ rr_line r = 3.
 Proof. vm_compute. repeat split; reflexivity. Qed.
+
+(* a RECURSIVE bundle: .down calls itself n times on the data.  The run on n = 3 stays within 3 nested
+   calls and not within 2; reg_height * (3 + 1) = 36 fuel gives the output *)
+Definition rec_down : node :=
+  NTemplate 13 (b "r.down")
+    (NList 30 [NIf 30 [NIfCond 30 (Some (NBin OGt 37 (NDataRef 34 (b "n") []) (NInt 39 0)))
+                          (NList 41 [NPrint 41 (NDataRef 42 (b "n") []) [];
+                                     NCall 45 (b "r.down") false None
+                                       [NParamValue 57 (b "n") (NBin OSub 69 (NDataRef 66 (b "n") []) (NInt 71 1))]]);
+                        NIfCond 82 None (NList 88 [NRawText 88 (b "end")])]]) 0 false.
+Definition rec_reg : registry :=
+  {| r_templates := [ {| t_name := b "r.down"; t_node := rec_down; t_ns_name := b "r"; t_ns_autoescape := 0; t_params := [(b "n", true)]; t_file := b "r.soy" |} ];
+     r_sources := [(b "r.down", repeat 32 100)];
+     r_files := [(b "r.down", b "r.soy")] |}.
+Definition rec_cf : cfg := {| c_reg := rec_reg; c_ij := None; c_oblig := []; c_msgs := None |}.
+Definition rec_st0 (n : Z) : mstate :=
+  init_state (sc_enter (new_scope 2 [(b "n", VInt n)])) (entry_mode 0) (b "r.down") None None 10.
+
+Example C06_ex_rec_reg_ok : reg_ok rec_reg = true /\ reg_height rec_reg = 9%nat.
+Proof. vm_compute. split; reflexivity. Qed.
+Example C06_ex_rec_depth : run_depth_le rec_cf 3 rec_down (rec_st0 3).
+Proof. exists 100%nat. split; vm_compute; discriminate. Qed.
+Example C06_ex_rec_depth_tight : fst (walk_cap rec_cf 2 100 rec_down (rec_st0 3)) = Err e_capped.
+Proof. vm_compute. reflexivity. Qed.
+Example C06_ex_rec_render :
+  let r := render rec_cf 36 (b "r.down") 2 [(b "n", VInt 3)] None None 10 in
+  rr_outcome r = Ok tt /\ concat_b (rr_writes r) = b "321end".
+Proof. vm_compute. split; reflexivity. Qed.
+
+(* the byte-string entry points really scan, parse and evaluate *)
+Example C06_ex_eval_bytes :
+  eval_expr_bytes 20 (b "1 + 2 * 3") = Ok (VInt 7)
+  /\ is_err (eval_expr_bytes 20 (b "1 < 'a'")) = true
+  /\ is_err (eval_expr_bytes 20 (b "1 +")) = true
+  /\ is_err (eval_expr_bytes 20 (b "'unterminated")) = true.
+Proof. vm_compute. repeat split; reflexivity. Qed.
+Example C06_ex_globals_bytes :
+  parse_globals_bytes 20 (b ("a = 1 + 1" ++ String (ascii_of_N 10) ("// c = 3" ++ String (ascii_of_N 10) "b.c = 'x'")))
+  = Ok [(b "a", VInt 2); (b "b.c", VStr (b "x"))]
+  /\ is_err (parse_globals_bytes 20 (b "a = -'x'")) = true.
+Proof. vm_compute. split; reflexivity. Qed.
 
 (* ================================================================== *)
 (* The pinned behaviours, as witnesses                                 *)
